@@ -118,7 +118,9 @@ type ElementPredicate func(Element) bool
 // To be used in conjunction with FindBy (Element interface)
 func ExactId(s string) ElementPredicate {
 	return func(e Element) bool {
-		if el, ok := e.(BaseElementInterface); ok {
+		if el, ok := e.(interface {
+			Id() (result *Id, present bool)
+		}); ok {
 			if id, present := el.Id(); present {
 				return *id == s
 			} else {
